@@ -22,6 +22,7 @@ import json
 import numpy as np
 
 from .data import Data
+from .data_association_enum import DataAssociationEnum
 from .primitive_type_enum import PrimitiveTypeEnum
 
 
@@ -50,6 +51,16 @@ class TextData(Data):
                 values = np.array(
                     [v.decode("utf-8") if isinstance(v, bytes) else v for v in values]
                 )
+
+            # A single entry is stored like a plain string: give it back as an array
+            # when the data is attached to the elements of its parent.
+            if isinstance(values, str) and self.association in (
+                DataAssociationEnum.VERTEX,
+                DataAssociationEnum.CELL,
+                DataAssociationEnum.FACE,
+                DataAssociationEnum.DEPTH,
+            ):
+                values = np.array([values])
 
             if isinstance(values, (np.ndarray, str, type(None))):
                 self._values = values
